@@ -13,12 +13,26 @@ from .lib import (Out, Proxy, TcpOrigin, UdpEcho, addr_v5, base_cfg, echo_handle
 SLACK = 3.0
 
 
+MUTE = {"port": None}   # an origin that echoes, and after the client's FIN neither answers nor closes
+
+
+async def mute_handler(r, w, origin, info):
+    while True:
+        b = await r.read(65536)
+        if not b:
+            break
+        w.write(b)
+        await w.drain()
+    await asyncio.sleep(120)
+
+
 def build(args, timeouts, io, wd, oport, uport, tag):
-    ports = {k: free_port() for k in ("http", "socks", "rev", "revudp", "quic", "api", "C.http", "C.api")}
+    ports = {k: free_port() for k in ("http", "socks", "rev", "revmute", "revudp", "quic", "api", "C.http", "C.api")}
     listeners = [
         {"name": "http", "bind": "127.0.0.1:%d" % ports["http"]},
         {"name": "socks", "bind": "127.0.0.1:%d" % ports["socks"]},
         {"name": "rev", "type": "reverse", "bind": "127.0.0.1:%d" % ports["rev"], "target": "127.0.0.1:%d" % oport},
+        {"name": "revmute", "type": "reverse", "bind": "127.0.0.1:%d" % ports["revmute"], "target": "127.0.0.1:%d" % MUTE["port"]},
         {"name": "revudp", "type": "reverse", "protocol": "udp", "bind": "127.0.0.1:%d" % ports["revudp"], "target": "127.0.0.1:%d" % uport},
         {"name": "quic", "bind": "127.0.0.1:%d" % ports["quic"], "tls": tls_server()},
     ]
@@ -41,8 +55,8 @@ async def open_kind(kind, ports, oport, uport):
         rep, _, _ = await socks5_connect(c, "127.0.0.1", oport)
         assert rep == 0, rep
         return {"kind": kind, "c": c, "src": c.local[1]}
-    if kind == "rev":
-        c = await open_conn("127.0.0.1", ports["rev"])
+    if kind in ("rev", "revmute"):
+        c = await open_conn("127.0.0.1", ports[kind])
         return {"kind": kind, "c": c, "src": c.local[1]}
     if kind == "socks-udp":
         c = await open_conn("127.0.0.1", ports["socks"])
@@ -152,6 +166,11 @@ async def scenario(out, A, ports, oport, uport, kind, pattern, T, cfgname, io_na
                     out.violation("tunnel closed for idleness although data was relayed less than the period ago", {"who": who, "period_s": T, "trickle_every_s": step, "last_activity_s_ago": round(now() - t_act, 2)})
                     return
                 t_act = r
+        elif pattern == "fin-late":
+            # silence, then shortly before the period ends one side half-closes WITHOUT payload while the other stays open and
+            # silent: a FIN is not activity, the period still counts from the last payload byte
+            await asyncio.sleep(0.9 * T)
+            t["c"].eof()
         elif pattern == "burst":
             for _ in range(5):
                 r = await ping(t, b"b" * 2000)
@@ -327,6 +346,8 @@ async def main(args):
     out = Out("C13", "c13", "configs {timeouts absent, idle 0/udp 0, idle 2/udp 4, idle 4/udp 2, idle 6/udp 6} x listener kinds {http, socks, reverse-tcp, reverse-udp, socks-udp, CONNECT-over-QUIC} x traffic patterns {silent, trickle just under the period, burst then silence} x io modes; /api/live wiring check and wall-clock close window. distinct = distinct (listener kind, pattern, config, io mode)")
     rng = random.Random(args.seed)
     origin = await TcpOrigin(echo_handler, host="127.0.0.1").start()
+    mute = await TcpOrigin(mute_handler, host="127.0.0.1").start()
+    MUTE["port"] = mute.port
     utr, upr, uport = await udp_endpoint(lambda: UdpEcho())
     configs = [("absent", None, 600, 600), ("zero", {"idle": 0, "udp": 0}, 0, 0), ("idle2-udp4", {"idle": 2, "udp": 4}, 2, 4), ("idle4-udp2", {"idle": 4, "udp": 2}, 4, 2),
                # a period well above tick + slack: a proxy that only looks every T seconds closes up to T late, which a small T hides
@@ -344,14 +365,16 @@ async def main(args):
                 procs += [A, C]
                 await A.start()
                 await C.start()
-                for kind in ("http", "socks", "rev", "quic", "socks-udp", "revudp"):
+                for kind in ("http", "socks", "rev", "quic", "socks-udp", "revudp", "revmute"):
                     T = t_udp if kind in ("socks-udp", "revudp") else t_tcp
                     if kind == "quic":
                         T = t_tcp  # enforced by A on the QUIC stream; C has timeouts disabled
-                    if cname == "absent":
+                    if kind == "revmute" and cname != "idle6-udp6":
+                        pats = ["fin-late"] if (args.thorough and cname == "idle4-udp2") else []
+                    elif cname == "absent":
                         pats = ["wiring-only"]
                     elif cname == "idle6-udp6":
-                        pats = ["burst"] if kind in ("http", "socks-udp", "rev") else []
+                        pats = ["burst"] if kind in ("http", "socks-udp", "rev") else ["fin-late"] if kind == "revmute" else []
                     elif cname == "zero":
                         pats = ["silent"] if (args.thorough or kind in ("http", "revudp")) else []
                     else:
@@ -393,6 +416,7 @@ async def main(args):
         for p in procs:
             p.cleanup()
         await origin.stop()
+        await mute.stop()
         utr.close()
     out.finish()
 
